@@ -393,7 +393,7 @@ pub fn run_pool_variant(ctx: &Ctx) {
                 frames.push(per_flow[k][idx[k]].clone());
                 idx[k] += 1;
             }
-            let cfg = PoolCfg { workers: *workers, queue: frames.len() + 8, batch: *batch, timeout_ms: 3, dispatchers: 1, perturb: Some(*seed), max_sleep_us: 100 };
+            let cfg = PoolCfg { workers: *workers, queue: frames.len() + 8, batch: *batch, timeout_ms: 3, dispatchers: 1, perturb: Some(*seed), max_sleep_us: 100, max_conn: 1000 };
             let run = run_pool(PoolKind::Tls, &frames, &cfg, None, None).map_err(|e| fail!("pool:new", "{e}"))?;
             if let Some(p) = &run.worker_panic {
                 return Err(Fail::new(format!("pool:worker-{}", crate::engine::panic_key(p)), p.clone()));
